@@ -31,6 +31,7 @@ NetOK == \A k \in DOMAIN Ev.calls :
     LET c == Ev.calls[k] IN
     /\ c.fam \in {"v4", "v6", "n"}
     /\ PrefixMeets(Demand(c), Expected(c), c.r)
+    /\ c.fam = "n" => UnmappedOK(Ev.ip, c.r)
     /\ (Demand(c) = "accept" /\ MembershipCompared(Ev.ip, Ev.mask, c.r)) =>
          \A j \in DOMAIN c.probes :
              ProbeCompared(Ev.ip, c.r, c.probes[j].x) => (c.probes[j].pc = c.probes[j].nc)
